@@ -1119,39 +1119,48 @@ func (w *c09walk) callSrc(call *ssa.Call, res, fld int) c09set {
 		return out
 	}
 	for _, t := range targets {
-		for s := range w.an.summary(t.fn, res, fld) {
-			if !strings.HasPrefix(s, "p") {
-				out[s] = true
-				continue
-			}
-			name := ""
-			num := s[1:]
-			if i := strings.Index(s, "."); i > 0 {
-				num, name = s[1:i], s[i+1:]
-			}
-			k := 0
-			fmt.Sscanf(num, "%d", &k)
-			if k >= len(t.args) {
-				out["?"] = true
-				continue
-			}
-			arg := t.args[k]
-			if name != "" {
-				if st := c09structOf(c09through(arg).Type()); st != nil {
-					idx := -1
-					for i := 0; i < st.NumFields(); i++ {
-						if st.Field(i).Name() == name {
-							idx = i
-						}
-					}
-					if idx >= 0 {
-						out.add(w.src(arg, idx))
-						continue
+		out.add(w.mapSrc(w.an.summary(t.fn, res, fld), t.args))
+	}
+	return out
+}
+
+// mapSrc translates sources stated in terms of a callee's parameters into the
+// sources of the actual arguments (in terms of w's function); other sources
+// are kept.
+func (w *c09walk) mapSrc(sum c09set, args []ssa.Value) c09set {
+	out := c09set{}
+	for s := range sum {
+		if !strings.HasPrefix(s, "p") {
+			out[s] = true
+			continue
+		}
+		name := ""
+		num := s[1:]
+		if i := strings.Index(s, "."); i > 0 {
+			num, name = s[1:i], s[i+1:]
+		}
+		k := 0
+		fmt.Sscanf(num, "%d", &k)
+		if k >= len(args) {
+			out["?"] = true
+			continue
+		}
+		arg := args[k]
+		if name != "" {
+			if st := c09structOf(c09through(arg).Type()); st != nil {
+				idx := -1
+				for i := 0; i < st.NumFields(); i++ {
+					if st.Field(i).Name() == name {
+						idx = i
 					}
 				}
+				if idx >= 0 {
+					out.add(w.src(arg, idx))
+					continue
+				}
 			}
-			out.add(w.src(arg, -1))
 		}
+		out.add(w.src(arg, -1))
 	}
 	return out
 }
@@ -1320,7 +1329,8 @@ func init() {
 			"R2 the value added to the cache is field-for-field the value returned after that Add, and the hit path returns the fields of the cached entry; " +
 			"R3 the scan indexes the receiver's rule slice from element 0 upwards by 1 while index < len; after the predicate's true edge the predicate is not evaluated again; every return after that edge yields the matched element's outbound and hijack address; every return that crossed neither the hit edge nor a match edge yields the zero result; " +
 			"R4 the engine returns the matched outbound only over the `ob != nil` edge and its default field only over the `ob == nil` edge; it writes to the request only over the `hijackIP != nil` edge, with values derived from the hijack address, and on that edge every path to a return rewrites both the host string and the resolve info; " +
-			"R5 the per-rule predicate's result depends (data or control) on every criterion field of the rule struct (protocol, both port bounds, host matcher), on its protocol and port parameters and on every HostInfo field any matcher reads, and the scan passes its own parameters to it.",
+			"R5 the per-rule predicate's result depends (data or control) on every criterion field of the rule struct (protocol, both port bounds, host matcher), on its protocol and port parameters and on every HostInfo field any matcher reads, and the scan passes its own parameters to it. " +
+			"The scan may live in one helper the lookup calls (R1/R3/R5 then map the helper's parameters to the arguments of that call): the helper returns the decision (struct or tuple; every return of the lookup after the call hands that result on), or the address of the matched rule / nil (the lookup reads the rule's fields over the `!= nil` edge and yields zero otherwise), or is the slow path that also performs the Adds (under its key parameter, unchanged, which must be the key Get used).",
 		NotDecided: []string{
 			"matcher semantics: suffix dot boundary, wildcard, CIDR, GeoIP/GeoSite, port-range off-by-one, case folding and trailing-dot normalisation (value-level behaviour)",
 			"injectivity of the key formatting (HostInfo.String) and LRU library correctness",
@@ -1399,7 +1409,10 @@ func checkC09(c *Check) {
 				hasHost = true
 			}
 		}
-		if hasCache && hasHost {
+		// a method of the same shape without any cache operation is a helper of
+		// the lookup (e.g. the extracted scan): it is analysed through its caller
+		// (a method that only adds to the cache is the slow path of a lookup)
+		if hasCache && hasHost && c09hasCacheOp(fn, "Get", "Peek") {
 			setFns = append(setFns, fn)
 		}
 	}
@@ -1454,49 +1467,31 @@ func c09eltOf(f *c09fn, addr ssa.Value) *ssa.IndexAddr {
 	return nil
 }
 
-func c09checkSet(c *Check, an *c09an, fn *ssa.Function, hostInfoT *types.Named, hostSt *types.Struct, mAll map[string]bool) {
-	p := c.P
-	f := an.ctx(fn)
-	gv := f.global
-	name := c09short(fn)
-	c.Saw(fnName(fn))
-
-	// ---- cache operations
-	var get *c09site
-	var adds []*c09site
-	cacheOK := true
+// c09hasCacheOp: fn itself calls a method of the LRU cache (one of names; any
+// method when no name is given).
+func c09hasCacheOp(fn *ssa.Function, names ...string) bool {
+	found := false
 	allInstrs(fn, func(in ssa.Instruction) {
-		ci, ok := in.(ssa.CallInstruction)
-		if !ok {
-			return
-		}
-		op, ok := c09cacheOp(ci)
-		if !ok {
-			return
-		}
-		call, isCall := in.(*ssa.Call)
-		args := ci.Common().Args
-		switch {
-		case isCall && (op == "Get" || op == "Peek") && len(args) == 2 && get == nil:
-			get = &c09site{label: op, call: call, key: args[1]}
-		case isCall && op == "Add" && len(args) == 3:
-			adds = append(adds, &c09site{call: call, key: args[1], val: args[2]})
-		default:
-			cacheOK = false
-			c.Undecided("C09.R1:"+name+":cache-op:"+op, c09r1, p.InstrPos(in), "cache operation "+op+" is not modelled (only one Get/Peek and Add calls are)")
+		if ci, ok := in.(ssa.CallInstruction); ok {
+			if op, ok := c09cacheOp(ci); ok {
+				if len(names) == 0 {
+					found = true
+				}
+				for _, n := range names {
+					if n == op {
+						found = true
+					}
+				}
+			}
 		}
 	})
-	if get == nil || len(adds) == 0 {
-		c.Unres("acl " + name + ": Cache.Get and Cache.Add call sites")
-		return
-	}
-	if !cacheOK {
-		return
-	}
+	return found
+}
 
-	// ---- the per-rule predicate call
-	var pred *ssa.Call
-	nPred := 0
+// c09predCalls: the calls in fn of a per-rule predicate (repository method
+// with a HostInfo parameter and a single bool result).
+func c09predCalls(p *Prog, fn *ssa.Function, hostInfoT types.Type) []*ssa.Call {
+	var out []*ssa.Call
 	allInstrs(fn, func(in ssa.Instruction) {
 		call, ok := in.(*ssa.Call)
 		if !ok {
@@ -1510,28 +1505,138 @@ func c09checkSet(c *Check, an *c09an, fn *ssa.Function, hostInfoT *types.Named, 
 		if rs.Len() != 1 || !types.Identical(rs.At(0).Type().Underlying(), types.Typ[types.Bool]) {
 			return
 		}
-		hasHost := false
 		for _, prm := range cal.Params {
 			if types.Identical(prm.Type(), hostInfoT) {
-				hasHost = true
+				out = append(out, call)
+				return
 			}
 		}
-		if hasHost {
-			pred = call
-			nPred++
-		}
 	})
-	if nPred != 1 {
-		c.Unres(fmt.Sprintf("acl %s: exactly one per-rule predicate call (method, HostInfo parameter, bool result), found %d", name, nPred))
+	return out
+}
+
+// c09slot: where the scan helper's result carries one result of the lookup:
+// result #res of the helper, or field fld of it when the result is a struct.
+type c09slot struct{ res, fld int }
+
+// c09slotVal: the value in the caller that holds result #res of call.
+func c09slotVal(call *ssa.Call, res int) ssa.Value {
+	if _, ok := call.Type().(*types.Tuple); ok {
+		return extractOf(call, res)
+	}
+	return call
+}
+
+func c09checkSet(c *Check, an *c09an, fn *ssa.Function, hostInfoT *types.Named, hostSt *types.Struct, mAll map[string]bool) {
+	p := c.P
+	f := an.ctx(fn)
+	gv := f.global
+	name := c09short(fn)
+	c.Saw(fnName(fn))
+
+	// ---- cache operations
+	var get *c09site
+	var adds []*c09site
+	cacheOK := true
+	cacheOps := func(in *ssa.Function, helper bool) {
+		allInstrs(in, func(in ssa.Instruction) {
+			ci, ok := in.(ssa.CallInstruction)
+			if !ok {
+				return
+			}
+			op, ok := c09cacheOp(ci)
+			if !ok {
+				return
+			}
+			call, isCall := in.(*ssa.Call)
+			args := ci.Common().Args
+			switch {
+			case !helper && isCall && (op == "Get" || op == "Peek") && len(args) == 2 && get == nil:
+				get = &c09site{label: op, call: call, key: args[1]}
+			case isCall && op == "Add" && len(args) == 3:
+				adds = append(adds, &c09site{call: call, key: args[1], val: args[2]})
+			default:
+				cacheOK = false
+				c.Undecided("C09.R1:"+name+":cache-op:"+op, c09r1, p.InstrPos(in), "cache operation "+op+" is not modelled (only one Get/Peek in the lookup and Add calls are)")
+			}
+		})
+	}
+	cacheOps(fn, false)
+	if get == nil {
+		c.Unres("acl " + name + ": Cache.Get call site")
 		return
 	}
+	if !cacheOK {
+		return
+	}
+
+	// ---- the per-rule predicate call: in the lookup itself, or in a helper the
+	// lookup calls (the scan extracted into a function of its own).  sf/fs/sv are
+	// the function that contains the scan; scanCall is its call site in fn (nil:
+	// the scan is inline).
+	// af/afc/av: the function that performs the Adds (fn, or the helper when it
+	// is the slow path that scans and stores).
+	sf, fs, sv := fn, f, gv
+	af, afc, av := fn, f, gv
+	var scanCall *ssa.Call
+	preds := c09predCalls(p, fn, hostInfoT)
+	if len(preds) == 0 {
+		nHelpers := 0
+		allInstrs(fn, func(in ssa.Instruction) {
+			call, ok := in.(*ssa.Call)
+			if !ok {
+				return
+			}
+			cal := staticCallee(call)
+			if cal == nil || cal == fn || len(cal.Blocks) == 0 || !p.IsRepoFn(cal) {
+				return
+			}
+			if pk := fnPkg(cal); pk == nil || pk.Pkg.Path() != pACL {
+				return
+			}
+			if ps := c09predCalls(p, cal, hostInfoT); len(ps) > 0 {
+				nHelpers++
+				scanCall, preds = call, ps
+			}
+		})
+		if nHelpers != 1 {
+			c.Unres(fmt.Sprintf("acl %s: exactly one per-rule predicate call (method, HostInfo parameter, bool result) in the lookup or in one helper it calls, found %d helpers with one", name, nHelpers))
+			return
+		}
+		sf = staticCallee(scanCall)
+		fs = an.ctx(sf)
+		sv = fs.global
+		c.Saw(fnName(sf))
+		if c09hasCacheOp(sf) {
+			// the helper is the slow path: it scans and stores the decision itself
+			if len(adds) > 0 {
+				c.Undecided("C09.R1:"+name+":scan-helper", c09r1, p.InstrPos(scanCall), "both the lookup and the helper that scans the rules add to the cache (not modelled)")
+				return
+			}
+			cacheOps(sf, true)
+			if !cacheOK {
+				return
+			}
+			af, afc, av = sf, fs, sv
+		}
+	}
+	if len(adds) == 0 {
+		c.Unres("acl " + name + ": Cache.Add call site (in the lookup or in the helper that scans the rules)")
+		return
+	}
+	if len(preds) != 1 {
+		c.Unres(fmt.Sprintf("acl %s: exactly one per-rule predicate call (method, HostInfo parameter, bool result), found %d", name, len(preds)))
+		return
+	}
+	pred := preds[0]
+	sname := c09short(sf)
 	predFn := staticCallee(pred)
 	predName := c09short(predFn)
 	c.Saw(fnName(predFn))
 	isPredTrue := func(cond ssa.Value, pol bool) bool { return pol && c09through(cond) == ssa.Value(pred) }
-	trueEdges := c09edges(fn, isPredTrue)
+	trueEdges := c09edges(sf, isPredTrue)
 	if len(trueEdges) == 0 {
-		c.Unres("acl " + name + ": the branch on the predicate's result")
+		c.Unres("acl " + sname + ": the branch on the predicate's result")
 		return
 	}
 	var hScan ssa.Value
@@ -1552,7 +1657,9 @@ func c09checkSet(c *Check, an *c09an, fn *ssa.Function, hostInfoT *types.Named, 
 	used := map[string]int{}
 	for _, a := range adds {
 		l := "Add(no-match)"
-		if guardedBy(a.call, isPredTrue) {
+		if af != sf {
+			l = "Add" // the scan's outcome is one value: the lookup does not distinguish the cases
+		} else if guardedBy(a.call, isPredTrue) {
 			l = "Add(match)"
 		}
 		used[l]++
@@ -1564,7 +1671,14 @@ func c09checkSet(c *Check, an *c09an, fn *ssa.Function, hostInfoT *types.Named, 
 
 	// ---- R5 (scan side) and R1: inputs of the decision vs. components of the key
 	w := an.walker(f, gv, false)
-	inputs := w.src(pred, -1)
+	var inputs c09set
+	if scanCall == nil {
+		inputs = w.src(pred, -1)
+	} else {
+		// what the predicate call depends on inside the helper, restated in terms
+		// of the lookup through the arguments of the helper call
+		inputs = w.mapSrc(an.walker(fs, sv, false).src(pred, -1), scanCall.Call.Args)
+	}
 	var need []string
 	for k, prm := range fn.Params {
 		if k == 0 {
@@ -1591,6 +1705,9 @@ func c09checkSet(c *Check, an *c09an, fn *ssa.Function, hostInfoT *types.Named, 
 	}
 	for _, site := range append([]*c09site{get}, adds...) {
 		ks := an.walker(f, gv, false).src(site.key, -1)
+		if site != get && af != fn {
+			ks = an.walker(f, gv, false).mapSrc(an.walker(afc, av, false).src(site.key, -1), scanCall.Call.Args)
+		}
 		for _, s := range comps {
 			c.Req(ks[s], "C09.R1:"+name+":"+site.label+":key-includes:"+c09pretty(fn, s), c09r1, p.InstrPos(site.call),
 				"the decision depends on "+c09pretty(fn, s)+" but the key passed to Cache."+site.label+" does not: two lookups differing only in it share one cache entry")
@@ -1648,19 +1765,56 @@ func c09checkSet(c *Check, an *c09an, fn *ssa.Function, hostInfoT *types.Named, 
 	keySt := c09structOf(get.key.Type())
 	for _, a := range adds {
 		good, detail := true, ""
+		// aKey / ca: the Add's key and cache as the lookup sees them.  With the Adds
+		// in the slow-path helper the key must be one of the helper's parameters,
+		// unchanged; the lookup's argument for it stands in
+		aKey := a.key
+		ca := gv.valKey(a.call.Call.Args[0], 0)
+		if af != fn {
+			aKey = nil
+			ca = av.valKey(a.call.Call.Args[0], 0)
+			for k, prm := range af.Params {
+				if k >= len(scanCall.Call.Args) {
+					break
+				}
+				if types.Identical(prm.Type(), get.key.Type()) {
+					same := true
+					if keySt != nil {
+						for i := 0; i < keySt.NumFields(); i++ {
+							if !c09eq(av.tokensField(a.key, i), c09one(prm.Name()+"."+keySt.Field(i).Name())) {
+								same = false
+							}
+						}
+					} else if !c09eq(av.tokens(a.key), c09one(prm.Name())) {
+						same = false
+					}
+					if same {
+						aKey = scanCall.Call.Args[k]
+					}
+				}
+				if pre := "*" + prm.Name() + "."; strings.HasPrefix(ca, pre) {
+					ca = "*" + gv.valKey(scanCall.Call.Args[k], 0) + "." + ca[len(pre):]
+				}
+			}
+			if aKey == nil {
+				c.Undecided("C09.R1:"+name+":"+a.label+":same-key-as-"+get.label, c09r1, p.InstrPos(a.call),
+					"the key "+c09short(af)+" adds under is not one of its parameters passed on unchanged")
+				continue
+			}
+		}
 		if keySt != nil {
 			for i := 0; i < keySt.NumFields(); i++ {
-				ta, tg := gv.tokensField(a.key, i), gv.tokensField(get.key, i)
+				ta, tg := gv.tokensField(aKey, i), gv.tokensField(get.key, i)
 				if !c09eq(ta, tg) {
 					good = false
 					detail += fmt.Sprintf(" key.%s is %s at Add but %s at %s;", keySt.Field(i).Name(), ta, tg, get.label)
 				}
 			}
-		} else if ta, tg := gv.tokens(a.key), gv.tokens(get.key); !c09eq(ta, tg) {
+		} else if ta, tg := gv.tokens(aKey), gv.tokens(get.key); !c09eq(ta, tg) {
 			good = false
 			detail = fmt.Sprintf(" key is %s at Add but %s at %s;", ta, tg, get.label)
 		}
-		if ca, cg := gv.valKey(a.call.Call.Args[0], 0), gv.valKey(get.call.Call.Args[0], 0); ca != cg {
+		if cg := gv.valKey(get.call.Call.Args[0], 0); ca != cg {
 			good = false
 			detail += " Add goes to " + ca + " but the lookup reads " + cg + ";"
 		}
@@ -1672,7 +1826,7 @@ func c09checkSet(c *Check, an *c09an, fn *ssa.Function, hostInfoT *types.Named, 
 	if hScan == nil {
 		c.Undecided("C09.R1:"+name+":scan-sees-keyed-host", c09r1, p.InstrPos(pred), "the predicate does not take the HostInfo by value")
 	} else {
-		record := func(val ssa.Value, fld int) map[int]c09set {
+		recordIn := func(f *c09fn, gv *c09view, val ssa.Value, fld int) map[int]c09set {
 			leaves := map[int]c09set{}
 			rw := an.walker(f, gv, false)
 			rw.recType = hostInfoT
@@ -1685,6 +1839,7 @@ func c09checkSet(c *Check, an *c09an, fn *ssa.Function, hostInfoT *types.Named, 
 			rw.src(val, fld)
 			return leaves
 		}
+		record := func(val ssa.Value, fld int) map[int]c09set { return recordIn(f, gv, val, fld) }
 		keyLeaves := record(get.key, -1)
 		for i := 0; i < hostSt.NumFields(); i++ {
 			fl := hostSt.Field(i).Name()
@@ -1695,11 +1850,51 @@ func c09checkSet(c *Check, an *c09an, fn *ssa.Function, hostInfoT *types.Named, 
 			if tk == nil {
 				continue // reported by key-includes
 			}
-			ts := gv.tokensField(hScan, i)
+			// hv: the value in the lookup whose field i the scan matches against
+			hv := hScan
+			if scanCall != nil {
+				// inside the helper the scanned field must be (computed from) the same
+				// field of one of the helper's HostInfo parameters; the argument the
+				// lookup passes for that parameter is then what the scan sees
+				org := sv.tokensField(hScan, i)
+				if u, ok := c09through(hScan).(*ssa.UnOp); ok && u.Op == token.MUL {
+					if a := fs.trackedStruct(u.X); a != nil && fs.copyOf(a) == nil {
+						org = c09set{}
+						for _, d := range sv.defsAt(u, c09cell{a, i}) {
+							st, ok := d.(*ssa.Store)
+							if !ok {
+								org["effect:"+c09instrName(d)] = true
+								continue
+							}
+							sub := -1
+							if st.Addr == ssa.Value(a) {
+								sub = i
+							}
+							if lv := recordIn(fs, sv, st.Val, sub)[i]; lv != nil {
+								org.add(lv)
+							} else {
+								org["v:"+c09instrName(d)] = true
+							}
+						}
+					}
+				}
+				hv = nil
+				for k, prm := range sf.Params {
+					if types.Identical(prm.Type(), hostInfoT) && k < len(scanCall.Call.Args) && c09eq(org, c09one(prm.Name()+"."+fl)) {
+						hv = scanCall.Call.Args[k]
+					}
+				}
+				if hv == nil {
+					c.Undecided("C09.R1:"+name+":scan-sees-keyed-host:"+fl, c09r1, p.InstrPos(pred),
+						fmt.Sprintf("inside %s the scan matches against host.%s = %s, which is not traced to one HostInfo parameter of the helper", sname, fl, org))
+					continue
+				}
+			}
+			ts := gv.tokensField(hv, i)
 			good := c09eq(ts, tk)
 			if !good {
 				// accepted: the scanned value is computed from the keyed value
-				if u, ok := c09through(hScan).(*ssa.UnOp); ok && u.Op == token.MUL {
+				if u, ok := c09through(hv).(*ssa.UnOp); ok && u.Op == token.MUL {
 					if a := f.trackedStruct(u.X); a != nil {
 						defs := gv.defsAt(u, c09cell{a, i})
 						good = len(defs) > 0
@@ -1748,26 +1943,103 @@ func c09checkSet(c *Check, an *c09an, fn *ssa.Function, hostInfoT *types.Named, 
 		}
 	}
 
+	// ---- with a scan helper: where its result carries each result of the lookup
+	// ptrMode: the helper returns the address of the matched rule (nil: none);
+	// the lookup branches on it and reads the rule's fields itself.
+	ptrMode := false
+	if scanCall != nil {
+		ruleElemT := ruleT
+		if et := c09elem(ruleT); et != nil {
+			ruleElemT = et
+		}
+		if et := c09elem(scanCall.Type()); et != nil && types.Identical(et, ruleElemT) {
+			ptrMode = true
+			if af != fn {
+				c.Undecided("C09.R3:"+name+":scan-helper-result", c09r3, p.InstrPos(scanCall), "a helper that returns the matched rule and also adds to the cache is not modelled")
+				return
+			}
+		}
+	}
+	var slots []c09slot
+	if scanCall != nil && !ptrMode {
+		var rts []types.Type
+		if tup, ok := scanCall.Type().(*types.Tuple); ok {
+			for j := 0; j < tup.Len(); j++ {
+				rts = append(rts, tup.At(j).Type())
+			}
+		} else {
+			rts = []types.Type{scanCall.Type()}
+		}
+		usedRes := map[int]bool{}
+		for i := 0; i < res.Len(); i++ {
+			var cands []c09slot
+			for j, rt := range rts {
+				if types.Identical(rt, res.At(i).Type()) {
+					cands = append(cands, c09slot{j, -1})
+				} else if st := c09structOf(rt); st != nil {
+					if fi := c09uniqueField(st, res.At(i).Type()); fi >= 0 {
+						cands = append(cands, c09slot{j, fi})
+					}
+				}
+			}
+			if len(cands) != 1 || c09slotVal(scanCall, cands[0].res) == nil {
+				c.Undecided("C09.R3:"+name+":scan-helper-result", c09r3, p.InstrPos(scanCall),
+					fmt.Sprintf("result #%d of the lookup has no unique counterpart in the result of %s", i, sname))
+				return
+			}
+			slots = append(slots, cands[0])
+			usedRes[cands[0].res] = true
+		}
+		if len(usedRes) != len(rts) {
+			c.Undecided("C09.R3:"+name+":scan-helper-result", c09r3, p.InstrPos(scanCall),
+				"the scan helper "+sname+" has results besides the outbound and the hijack address (a found flag, an index): not modelled")
+			return
+		}
+	}
+	// scanTok: tokens of the lookup's result #i among the values rs a scan-function return hands back
+	scanTok := func(v *c09view, rs []ssa.Value, i int) c09set {
+		if scanCall == nil {
+			if i < len(rs) {
+				return v.tokens(rs[i])
+			}
+			return c09set{}
+		}
+		sl := slots[i]
+		if sl.res >= len(rs) {
+			return c09set{}
+		}
+		if sl.fld < 0 {
+			return v.tokens(rs[sl.res])
+		}
+		return v.tokensField(rs[sl.res], sl.fld)
+	}
+
 	// ---- R2 cached = returned
 	for _, a := range adds {
 		if !types.Identical(a.val.Type(), adds[0].val.Type()) {
 			continue
 		}
 		var rets []*ssa.Return
-		for _, in := range reachFrom(fn, a.call, nil, nil) {
-			if r, ok := in.(*ssa.Return); ok && fn.Recover != r.Block() {
+		for _, in := range reachFrom(af, a.call, nil, nil) {
+			if r, ok := in.(*ssa.Return); ok && af.Recover != r.Block() {
 				rets = append(rets, r)
 			}
 		}
 		for i := 0; i < res.Len(); i++ {
 			good, detail := len(rets) > 0, "no return follows the Add"
-			tv := gv.tokensField(a.val, valFld[i])
+			tv := av.tokensField(a.val, valFld[i])
 			for _, r := range rets {
 				rs := retResults(r)
-				if rs == nil || i >= len(rs) {
+				if rs == nil || (af == fn && i >= len(rs)) {
 					continue
 				}
-				if tr := gv.tokens(rs[i]); !c09eq(tr, tv) {
+				tr := c09set{}
+				if af == fn {
+					tr = gv.tokens(rs[i])
+				} else {
+					tr = scanTok(av, rs, i) // the helper's result, which the lookup hands on (R3 returns-scan-result)
+				}
+				if !c09eq(tr, tv) {
 					good = false
 					detail = fmt.Sprintf("the entry stores %s but the call returns %s (%s): a later hit answers differently from this evaluation", tv, tr, p.InstrPos(r))
 				}
@@ -1802,13 +2074,13 @@ func c09checkSet(c *Check, an *c09an, fn *ssa.Function, hostInfoT *types.Named, 
 	}
 	var ia *ssa.IndexAddr
 	if eltAddr != nil {
-		ia = c09eltOf(f, eltAddr)
+		ia = c09eltOf(fs, eltAddr)
 	}
 	orderKey := "C09.R3:" + name + ":scan-order"
 	if ia == nil {
 		c.Undecided(orderKey, c09r3, p.InstrPos(pred), "the predicate's receiver is not (a copy of) an indexed element of a slice")
 	} else {
-		c09checkOrder(c, f, fn, pred, ia, orderKey)
+		c09checkOrder(c, fs, sf, pred, ia, orderKey, f, scanCall)
 	}
 	// the first hit ends the scan
 	again := false
@@ -1823,14 +2095,26 @@ func c09checkSet(c *Check, an *c09an, fn *ssa.Function, hostInfoT *types.Named, 
 	nMatchRet := 0
 	if eltAddr != nil {
 		for _, e := range trueEdges {
-			rv := f.solve(e[0], e[1], nil)
-			for _, r := range c09returnsIn(c09blocksFrom(e[1], nil), fn) {
+			rv := fs.solve(e[0], e[1], nil)
+			for _, r := range c09returnsIn(c09blocksFrom(e[1], nil), sf) {
 				nMatchRet++
 				rs := retResults(r)
-				for i := 0; i < res.Len() && i < len(rs); i++ {
+				if ptrMode {
+					good := len(rs) == 1
+					if good {
+						got, want := rv.addrKey(rs[0], 0), sv.addrKey(eltAddr, 0)
+						if _, isConst := rs[0].(*ssa.Const); isConst || got != want {
+							good = false
+						}
+					}
+					c.Req(good, "C09.R3:"+name+":match-returns-matched-rule:address", c09r3, p.InstrPos(r),
+						"after a match the helper does not return the address of the rule the predicate accepted")
+					continue
+				}
+				for i := 0; i < res.Len() && (scanCall != nil || i < len(rs)); i++ {
 					fl := ruleSt.Field(ruleFld[i]).Name()
-					want := c09one("*" + gv.addrKey(eltAddr, 0) + "." + fl)
-					got := rv.tokens(rs[i])
+					want := c09one("*" + sv.addrKey(eltAddr, 0) + "." + fl)
+					got := scanTok(rv, rs, i)
 					c.Req(c09eq(got, want), "C09.R3:"+name+":match-returns-matched-rule:"+fl, c09r3, p.InstrPos(r),
 						fmt.Sprintf("after a match result #%d is %s, not the matched rule's %s %s", i, got, fl, want))
 				}
@@ -1844,13 +2128,91 @@ func c09checkSet(c *Check, an *c09an, fn *ssa.Function, hostInfoT *types.Named, 
 		cutSet[e] = true
 	}
 	cut := func(a, b *ssa.BasicBlock) bool { return cutSet[[2]*ssa.BasicBlock{a, b}] }
-	mv := f.solve(nil, nil, cut)
+	if ptrMode {
+		// the lookup side: over the `helper result != nil` edge the returns yield
+		// the fields of the rule the helper points to; without that edge (and
+		// without a hit) the zero result
+		isFound := func(cond ssa.Value, pol bool) bool {
+			x, isNil, ok := nilTest(cond, pol)
+			return ok && !isNil && c09through(x) == ssa.Value(scanCall)
+		}
+		foundEdges := c09edges(fn, isFound)
+		if len(foundEdges) == 0 {
+			c.Undecided("C09.R3:"+name+":scan-helper-result", c09r3, p.InstrPos(scanCall), "no branch on `"+sname+"(...) != nil` found in the lookup")
+			return
+		}
+		for _, e := range foundEdges {
+			rv := f.solve(e[0], e[1], nil)
+			for _, r := range c09returnsIn(c09blocksFrom(e[1], nil), fn) {
+				rs := retResults(r)
+				for i := 0; i < res.Len() && i < len(rs); i++ {
+					fl := ruleSt.Field(ruleFld[i]).Name()
+					want := c09one("*" + gv.addrKey(scanCall, 0) + "." + fl)
+					got := rv.tokens(rs[i])
+					c.Req(c09eq(got, want), fmt.Sprintf("C09.R3:%s:returns-scan-result:%d", name, i), c09r3, p.InstrPos(r),
+						fmt.Sprintf("after the helper found a rule result #%d is %s, not that rule's %s %s", i, got, fl, want))
+				}
+			}
+		}
+		lcut := map[[2]*ssa.BasicBlock]bool{}
+		for _, e := range append(c09edges(fn, isHit), foundEdges...) {
+			lcut[e] = true
+		}
+		lcutf := func(a, b *ssa.BasicBlock) bool { return lcut[[2]*ssa.BasicBlock{a, b}] }
+		lv := f.solve(nil, nil, lcutf)
+		for _, r := range c09returnsIn(c09blocksFrom(fn.Blocks[0], lcutf), fn) {
+			rs := retResults(r)
+			for i := 0; i < res.Len() && i < len(rs); i++ {
+				got := lv.tokens(rs[i])
+				c.Req(c09eq(got, c09one("zero")), fmt.Sprintf("C09.R3:%s:no-match-returns-zero:%d", name, i), c09r3, p.InstrPos(r),
+					fmt.Sprintf("when no rule matches result #%d is %s instead of the zero value (the engine would not fall back to the default outbound)", i, got))
+			}
+		}
+	} else if scanCall != nil {
+		// the lookup side: a return the helper call dominates yields the helper's
+		// result; a return that is reached without the helper call (and without a
+		// hit) yields the zero result
+		lv := f.solve(nil, nil, cut)
+		afterScan := map[ssa.Instruction]bool{}
+		for _, in := range reachFrom(fn, scanCall, nil, nil) {
+			afterScan[in] = true
+		}
+		for _, r := range c09returnsIn(c09blocksFrom(fn.Blocks[0], cut), fn) {
+			rs := retResults(r)
+			for i := 0; i < res.Len() && i < len(rs); i++ {
+				key := fmt.Sprintf("C09.R3:%s:returns-scan-result:%d", name, i)
+				got := lv.tokens(rs[i])
+				switch {
+				case dominates(scanCall, r):
+					var want c09set
+					if sl := slots[i]; sl.fld < 0 {
+						want = gv.tokens(c09slotVal(scanCall, sl.res))
+					} else {
+						want = gv.tokensField(c09slotVal(scanCall, sl.res), sl.fld)
+					}
+					c.Req(c09eq(got, want), key, c09r3, p.InstrPos(r),
+						fmt.Sprintf("after the scan result #%d is %s, not the scan's outcome %s", i, got, want))
+				case !afterScan[r]:
+					c.Req(c09eq(got, c09one("zero")), key, c09r3, p.InstrPos(r),
+						fmt.Sprintf("without a cache hit and without scanning the rules result #%d is %s instead of the zero value", i, got))
+				default:
+					c.Undecided(key, c09r3, p.InstrPos(r), "a return is reached both with and without the scan helper's call")
+				}
+			}
+		}
+	}
+	mv := fs.solve(nil, nil, cut)
 	nMiss := 0
-	for _, r := range c09returnsIn(c09blocksFrom(fn.Blocks[0], cut), fn) {
+	for _, r := range c09returnsIn(c09blocksFrom(sf.Blocks[0], cut), sf) {
 		nMiss++
 		rs := retResults(r)
-		for i := 0; i < res.Len() && i < len(rs); i++ {
-			got := mv.tokens(rs[i])
+		if ptrMode {
+			c.Req(len(rs) == 1 && isNilConst(rs[0]), "C09.R3:"+name+":no-match-returns-nil-rule", c09r3, p.InstrPos(r),
+				"when no rule matches the helper returns a rule instead of nil")
+			continue
+		}
+		for i := 0; i < res.Len() && (scanCall != nil || i < len(rs)); i++ {
+			got := scanTok(mv, rs, i)
 			c.Req(c09eq(got, c09one("zero")), fmt.Sprintf("C09.R3:%s:no-match-returns-zero:%d", name, i), c09r3, p.InstrPos(r),
 				fmt.Sprintf("when no rule matches result #%d is %s instead of the zero value (the engine would not fall back to the default outbound)", i, got))
 		}
@@ -1899,15 +2261,42 @@ func c09checkSet(c *Check, an *c09an, fn *ssa.Function, hostInfoT *types.Named, 
 }
 
 // c09checkOrder: the scan indexes the receiver's slice 0,1,2,... while index < len.
-func c09checkOrder(c *Check, f *c09fn, fn *ssa.Function, pred *ssa.Call, ia *ssa.IndexAddr, key string) {
+// With a scan helper (scanCall != nil: its call in the lookup outer) the slice
+// is a field of the lookup's receiver handed to the helper, or a parameter of
+// the helper that receives such a field.
+func c09checkOrder(c *Check, f *c09fn, fn *ssa.Function, pred *ssa.Call, ia *ssa.IndexAddr, key string, outer *c09fn, scanCall *ssa.Call) {
 	p := c.P
 	gv := f.global
 	pos := p.InstrPos(pred)
 	sl := gv.valKey(ia.X, 0)
-	pre := "*" + fn.Params[0].Name() + "."
-	if !strings.HasPrefix(sl, pre) || strings.ContainsAny(sl[len(pre):], ".(*:") {
-		c.Undecided(key, c09r3, pos, "the scanned slice "+sl+" is not a field of the receiver")
-		return
+	isRecvField := func(sl, recv string) bool {
+		pre := "*" + recv + "."
+		return strings.HasPrefix(sl, pre) && !strings.ContainsAny(sl[len(pre):], ".(*:")
+	}
+	if scanCall == nil {
+		if !isRecvField(sl, fn.Params[0].Name()) {
+			c.Undecided(key, c09r3, pos, "the scanned slice "+sl+" is not a field of the receiver")
+			return
+		}
+	} else {
+		okOwner := false
+		recv := outer.fn.Params[0].Name()
+		for k, prm := range fn.Params {
+			if k >= len(scanCall.Call.Args) {
+				break
+			}
+			arg := outer.global.valKey(scanCall.Call.Args[k], 0)
+			if c09through(ia.X) == ssa.Value(prm) && isRecvField(arg, recv) {
+				okOwner = true // the helper is handed the receiver's rule slice
+			}
+			if isRecvField(sl, prm.Name()) && arg == recv {
+				okOwner = true // the helper is handed the receiver and scans its field
+			}
+		}
+		if !okOwner {
+			c.Undecided(key, c09r3, pos, "the slice "+sl+" scanned in the helper is not traced to a field of the lookup's receiver")
+			return
+		}
 	}
 	idx := ia.Index
 	base, off := idx, int64(0)
